@@ -37,6 +37,7 @@ fn base(stats_each: bool) -> HistProp {
     gc.status0 = vec![0, 0, 0, 1];
     gc.invalid_names = true;
     gc.max_depth = 2;
+    gc.populate_pct = 10;
     HistProp {
         id: "C05",
         level: "exploration",
